@@ -146,6 +146,8 @@ Check (C10_dial_success :
          end).
 Check (C10_error_variants_in_sync :
   ErrNames.model_variants = DialErrors.variants /\ ErrNames.model_gates = DialErrors.gates).
+Check (C10_store_sites_in_sync :
+  ErrNames.model_store_sites = DialErrors.store_sites).
 Check (C10_error_kinds_enumerated :
   forall e, In e all_dial_errors /\ err_of_code (err_code e) = Some e).
 Check (C10_error_score_negative :
